@@ -40,11 +40,19 @@ fn run(ctx: &Ctx) -> Report {
             closure::decoder_closure(ctx, &mut rep, &mut unit);
         }
         "C09" => {
+            let t0 = std::time::Instant::now();
             tiny::tier1(ctx, &mut rep, Focus::Drain, &mut unit);
+            rep.count_max("max_stage_ms_tier1", t0.elapsed().as_millis() as u64);
+            let t0 = std::time::Instant::now();
             prod::boundary_family(ctx, &mut rep, Focus::Drain, &mut unit);
+            rep.count_max("max_stage_ms_boundary", t0.elapsed().as_millis() as u64);
+            let t0 = std::time::Instant::now();
             arena_fill::arena_fill_family(ctx, &mut rep, &mut unit);
+            rep.count_max("max_stage_ms_arena_fill", t0.elapsed().as_millis() as u64);
             owning_iovec::verif::drain_quarantine();
+            let t0 = std::time::Instant::now();
             longrun::run(ctx, &mut rep, &mut unit);
+            rep.count_max("max_stage_ms_longrun", t0.elapsed().as_millis() as u64);
         }
         "C05" => {
             // the C05 clauses for the codecs: every slice exposed by Encoder/Decoder consumers
